@@ -21,6 +21,9 @@ pub enum Op {
     KClear { restart: i32 },
     /// consume the collection(s) into ordered vectors at time now + dt; ends the run
     KExport { dt: i32 },
+    /// bulk build of a giant tree (only on an empty world): keys 0, 2, 4, ... 2(n-1) inserted
+    /// ascending (pat 0) or descending (1), none of them expiring before the end of the time line
+    KBulk { n: i32, pat: u8 },
 
     // ---- ordered map / set world ----------------------------------------
     OIns { k: i32 },
@@ -68,6 +71,7 @@ impl Op {
             Op::KSweep => "KSweep",
             Op::KClear { .. } => "KClear",
             Op::KExport { .. } => "KExport",
+            Op::KBulk { .. } => "KBulk",
             Op::OIns { .. } => "OIns",
             Op::ODel { .. } => "ODel",
             Op::OGet { .. } => "OGet",
@@ -101,6 +105,7 @@ impl Op {
             Op::KSweep => "KSweep".into(),
             Op::KClear { restart } => format!("KClear {}", restart),
             Op::KExport { dt } => format!("KExport {}", dt),
+            Op::KBulk { n, pat } => format!("KBulk {} {}", n, pat),
             Op::OIns { k } => format!("OIns {}", k),
             Op::ODel { k } => format!("ODel {}", k),
             Op::OGet { k } => format!("OGet {}", k),
@@ -142,6 +147,7 @@ impl Op {
             "KSweep" => Op::KSweep,
             "KClear" => Op::KClear { restart: i(0)? },
             "KExport" => Op::KExport { dt: i(0)? },
+            "KBulk" => Op::KBulk { n: i(0)?, pat: i(1)? as u8 },
             "OIns" => Op::OIns { k: i(0)? },
             "ODel" => Op::ODel { k: i(0)? },
             "OGet" => Op::OGet { k: i(0)? },
